@@ -21,6 +21,16 @@ CHECKS = {
     },
 }
 
+CHECKS["C11"] = {
+    "category": "model_checking",
+    "technique": "TLA+ spec Leader.tla checked by TLC over all bounded schedules; its function table replayed into the real Schedule::view_leader (T3), all listing permutations",
+    "text": "Leader.tla states totality, eligibility, rotation law (freq 0 = never) and exact weight-proportionality over hash "
+            "residues; TLC checks them on every schedule of the bounded space and emits the table; the real function is compared on "
+            "every table entry, on every residue (views searched to realise each), on 64-bit views and weights, under every permutation.",
+    "note": "Exhaustive for <=3 (quick) / <=4 (thorough) validators with weights 1..3; keccak uniformity assumed; 64-bit views by the law.",
+    "design_ref": "§7 C11",
+}
+
 NOT_YET = "check not built yet (construction in progress; see DESIGN.md §11 build order)"
 NA_REASONS = {}
 
